@@ -120,6 +120,18 @@ add("C11",
     "inverses, half-spectrum, DC cell, linearity, per-component action, position independence and renaming are checked.",
     "tolerance 1e-10*N*max|f|; reference uses only numpy exp/tensordot (no FFT routines).")
 
+add("C12",
+    "Hypothesis-generated fields; per field complete enumeration of all ordered axis pairs x k in -8..8; exact affine "
+    "model (Fractions) for corners, independent index map for cells, exact integer matrix for mapped components, "
+    "point-wise sampling",
+    "For every generated field (2-4 d, anisotropic, permuted/partial mappings, int/float, masks, subregions, distinct "
+    "units, default/arbitrary/far reference) every (pair, k) combination is rotated with the copying form and compared "
+    "with the model; k vs k mod 4, turn+reverse, region/mesh/field consistency, copy purity, and for drawn combinations "
+    "the in-place form (returns self, equals the copy incl. units and subregions); unmapped vector fields must be "
+    "refused without modification.",
+    "coordinates at 64 eps of the largest magnitude involved; values at rtol 1e-12, exactly for integer dtypes; far "
+    "reference points only without subregions (absolute alignment tolerance).")
+
 PENDING = {}
 
 
